@@ -9,7 +9,7 @@ THEOREMS = [
     "XcmModel.C13.C13_timeout_is_etimedout", "XcmModel.C13.C13_single_first_only",
     "XcmModel.C13.C13_waiting_is_watched", "XcmModel.C13.C13_resolve_sync_terminates",
     "XcmModel.C13tc.C13_tc_fails_only_when_all_tracks_failed", "XcmModel.C13tc.C13_happy_one_track_per_family",
-    "XcmModel.TimerProps.timer_inv_run", "XcmModel.TimerProps.C04_expired_timer_wakes", "XcmModel.TimerProps.C13_has_expired_implies_readable", "XcmModel.TimerProps.ids_never_reused", "XcmModel.TimerProps.cancel_exact", "XcmModel.TimerProps.other_calls_keep_timer", "XcmModel.TimerProps.ack_live_no_abort",
+    "XcmModel.TimerProps.timer_inv_run", "XcmModel.TimerProps.C04_expired_timer_wakes", "XcmModel.TimerProps.C13_has_expired_implies_readable", "XcmModel.TimerProps.ids_never_reused", "XcmModel.TimerProps.cancel_exact", "XcmModel.TimerProps.other_calls_keep_timer", "XcmModel.TimerProps.ack_live_no_abort", "XcmModel.TimerProps.reschedule_replaces",
     "XcmModel.DnsProps.dns_inv_run", "XcmModel.DnsProps.process_inv", "XcmModel.DnsProps.result_safe", "XcmModel.DnsProps.C13_dns_completed_sticky", "XcmModel.DnsProps.C13_dns_timeout_enoent", "XcmModel.DnsProps.C13_dns_no_early_timeout", "XcmModel.DnsProps.C13_dns_deadline_value", "XcmModel.DnsProps.C13_dns_times_out_in_every_history", "XcmModel.DnsProps.process_keeps_deadline", "XcmModel.DnsProps.C04_dns_deadline_wakes",
 ]
 
